@@ -126,13 +126,20 @@ def classify_diff(target: str, data: Any, rp: Any, rf: Any) -> Tuple[str, str]:
     return "", ""
 
 
+def _unwrap(r: Any) -> Any:
+    """validate results carry {"$tt": type tree, "$attrs": typed view}; C09 compares the type tree."""
+    if r[0] == "accept" and isinstance(r[1], dict) and "$tt" in r[1]:
+        return (r[0], r[1]["$tt"], r[2], r[3])
+    return r
+
+
 def check(case: Dict[str, Any]) -> Outcome:
     out = Outcome()
     target, how, data = case["target"], case.get("how", "validate"), case["data"]
     wp, wf = workers()
     req = {"op": "validate", "cases": [(target, how, data)]}
-    rp = wp.request(req)[0]
-    rf = wf.request(req)[0]
+    rp = _unwrap(wp.request(req)[0])
+    rf = _unwrap(wf.request(req)[0])
     kind = case.get("kind", "model")
     out.classes = (f"kind:{kind}", f"pydantic:{rp[0]}", f"fallback:{rf[0]}")
     out.nontrivial = bool(case.get("nt", True))
